@@ -40,6 +40,17 @@ Definition unresolvable (c : case) (col : column) : bool :=
 
 Definition vnat (n : nat) : val := VZ (Z.of_nat n).
 
+(** big integers are handed back as sign + little-endian base-2^32 limbs
+    (printing a several-hundred-bit numeral is slow in Coq; this is output
+    formatting only) *)
+Fixpoint limbs (fuel : nat) (z : Z) : list Z :=
+  match fuel with
+  | O => []
+  | S f => if z =? 0 then [] else (z mod 4294967296) :: limbs f (z / 4294967296)
+  end.
+Definition vbig (z : Z) : val :=
+  VL (VZ (Z.sgn z) :: map VZ (limbs (Z.to_nat (Z.log2 (Z.abs z) / 32 + 1)) (Z.abs z))).
+
 (** observation: root [index], root [counts] (incl. the count-0 gap column),
     likelihood of every unique column (incl. the gap column) *)
 Definition run_case (c : case) : val :=
@@ -52,7 +63,7 @@ Definition run_case (c : case) : val :=
     let allc := uniq ++ [gap_column aln (k_mlen c)] in
     let prof := profile Z_ops (k_amb c) (k_alphabet c) in
     let liks := map (site_lik Z_ops n prof (map psub_of (k_psubs c)) (k_bprobs c) (k_pi c) (k_tree c)) allc in
-    VL [VL (map vnat index); VL (map vnat (counts ++ [O])); VL (map VZ liks)].
+    VL [VL (map vnat index); VL (map vnat (counts ++ [O])); VL (map vbig liks)].
 
 (** C11: the same observation after moving the root along a path of child
     indices inside the model ([reroot_path]); [VN] when the path leaves the tree *)
